@@ -423,6 +423,7 @@ func runLockRulesP(c *Ctx, prop string, fnPred func(*ssa.Function) bool, ownerPr
 		checkChanDiscipline(c, prop, owner, mf)
 	}
 	c.Count("guarded fields", nGuard)
+	checkDecideAndAct(c, prop, fnPred)
 
 	// R5 captures
 	if withCaptures {
@@ -859,4 +860,138 @@ func knownCallersOf(p *Program, g *ssa.Function, depth int, seen map[*ssa.Functi
 	}
 	sort.Slice(out, func(i, j int) bool { return FuncKey(out[i]) < FuncKey(out[j]) })
 	return out
+}
+
+// checkDecideAndAct — R11. A function that gives its lock up and takes it again must not
+// write guarded state in the second critical section because of what a read of that state
+// said in the first: between the two, another holder may have written the very entry (a
+// cache miss decided before an unlocked store read, then `cache(key, staleValue)` after
+// re-locking, overwrites what a transaction staged in between). Instances: calls of a
+// mutating method on a lock-guarded component (a pointer field of a struct that also has the
+// mutex) that are control-dependent on the result of a method call on the same component
+// made before an explicit Unlock that dominates the write.
+func checkDecideAndAct(c *Ctx, prop string, fnPred func(*ssa.Function) bool) {
+	p := c.P
+	n := 0
+	for _, fn := range p.OwnFuncs {
+		if !fnPred(fn) || len(fn.Blocks) == 0 {
+			continue
+		}
+		tb := newTB()
+		// explicit unlocks in this function
+		type unl struct {
+			in   ssa.Instruction
+			path string
+		}
+		var unlocks []unl
+		var locks []unl
+		for _, call := range AllCalls(fn) {
+			if _, isDefer := call.(*ssa.Defer); isDefer {
+				continue
+			}
+			if ref, acq, ok := lockOp(tb, call); ok {
+				if acq {
+					locks = append(locks, unl{call, ref.Path})
+				} else {
+					unlocks = append(unlocks, unl{call, ref.Path})
+				}
+			}
+		}
+		if len(unlocks) == 0 || len(locks) < 2 {
+			continue
+		}
+		ff := factsOf(fn)
+		// component calls: receiver is a load of a pointer field of the struct that owns the mutex
+		compOf := func(call ssa.CallInstruction) (string, bool) {
+			g := call.Common().StaticCallee()
+			if g == nil || !IsOwn(g) || call.Common().Signature().Recv() == nil || len(call.Common().Args) == 0 {
+				return "", false
+			}
+			t := tb.of(call.Common().Args[0], 0)
+			if t.Op != "field" || len(t.Args) != 1 {
+				return "", false
+			}
+			return t.String(), true
+		}
+		for _, w := range AllCalls(fn) {
+			comp, ok := compOf(w)
+			if !ok || !calleeWritesReceiver(w.Common().StaticCallee(), 0) {
+				continue
+			}
+			// an unlock that dominates the write, and a re-lock between that unlock and the write
+			for _, u := range unlocks {
+				if !instrDominates(u.in, w) {
+					continue
+				}
+				relocked := false
+				for _, l := range locks {
+					if l.path == u.path && instrDominates(u.in, l.in) && instrDominates(l.in, w) {
+						relocked = true
+					}
+				}
+				if !relocked {
+					continue
+				}
+				// is the write control-dependent on a read of the same component made before the unlock?
+				for _, f := range ff.FactsAt(w.Block()) {
+					var hit *Term
+					probe := func(t *Term) {
+						if t == nil {
+							return
+						}
+						t.Walk(func(x *Term) bool {
+							if x.Op == "call" && len(x.Args) >= 1 && x.Args[0].String() == comp && x.Call != nil {
+								if ci, ok := x.Call.(ssa.Instruction); ok && instrDominates(ci, u.in) {
+									hit = x
+								}
+							}
+							return true
+						})
+					}
+					if f.IsCmp {
+						probe(f.L)
+						probe(f.R)
+					} else {
+						probe(f.B)
+					}
+					if hit != nil {
+						n++
+						c.Require(prop+".R11 decide-and-act-in-one-critical-section", FuncKey(fn)+": "+CalleeName(w.Common())+" after re-locking", p.InstrPos(w), "guarded state is not written under a second acquisition because of what a read under the first one said ("+f.String()+")", false, "lock given up at "+p.InstrPos(u.in))
+						break
+					}
+				}
+			}
+		}
+	}
+	c.Count("decide-and-act findings", n)
+}
+
+// calleeWritesReceiver: g (or an own callee, to a small depth) stores through its receiver.
+func calleeWritesReceiver(g *ssa.Function, depth int) bool {
+	if g == nil || len(g.Blocks) == 0 || depth > 2 || len(g.Params) == 0 {
+		return false
+	}
+	recv := g.Params[0]
+	for _, b := range g.Blocks {
+		for _, in := range b.Instrs {
+			switch x := in.(type) {
+			case *ssa.MapUpdate:
+				if strings.HasPrefix(T(x.Map).String(), "p0.") {
+					return true
+				}
+			case *ssa.Store:
+				if fa, ok := x.Addr.(*ssa.FieldAddr); ok && fa.X == ssa.Value(recv) {
+					return true
+				}
+			case ssa.CallInstruction:
+				if h := x.Common().StaticCallee(); h != nil && IsOwn(h) && len(x.Common().Args) > 0 && x.Common().Args[0] == ssa.Value(recv) && calleeWritesReceiver(h, depth+1) {
+					return true
+				}
+				if bi, ok := x.Common().Value.(*ssa.Builtin); ok && bi.Name() == "delete" && strings.HasPrefix(T(x.Common().Args[0]).String(), "p0.") {
+					return true
+				}
+			}
+		}
+	}
+	return false
 }
